@@ -37,4 +37,20 @@ PROPS["C19"] = dict(
     assumptions=["a struct literal/pattern without `..` mentions every field exactly once (rustc)"],
 )
 
+PROPS["C03"] = dict(
+    lean=["SqlVerif.Props.C03"],
+    namespaces=["SqlVerif.Props.C03"],
+    required=["SqlVerif.Props.C03.certificate_checks", "SqlVerif.Props.C03.trees_are_tables",
+              "SqlVerif.Props.C03.rank_bounded", "SqlVerif.Props.C03.call_chain_bounded",
+              "SqlVerif.Props.C03.guard_restores", "SqlVerif.Props.C03.limit_iff_too_deep",
+              "SqlVerif.Props.C03.siblings_ok", "SqlVerif.Props.C03.setop_nesting_bounded"],
+    corr=[],
+    oracle=["C03"],
+    level_text="Proved in Lean for every finite call graph: if rank strictly decreases along every call edge whose target takes no depth guard, every call chain holding at most L guards is at most (L+1)(maxRank+1) frames long, for every input. The parser's call graph (552 functions of parser/*.rs and dialect/*.rs, receivers resolved conservatively, closures attributed to the enclosing function), its guard set and the rank certificate are re-extracted with syn on every run and the certificate is re-checked by the kernel; the counter is proved to be restored on every path and to raise the limit error exactly beyond the remaining depth; the one cycle bounded by a measure instead of a guard (set-operator climbing) has its own theorem. A removed guard or a new unguarded cycle breaks the certificate; the nesting oracle (32 construct families x dialects x limits x depths up to 10^5 in child processes, plus sibling forms) then looks for the crashing input.",
+    level_note="Trusted: Lean kernel; translator/callgraph.rs (syntactic call resolution; dynamic dispatch over-approximated by all impls); a native call chain is a path of the static graph; stack bytes per frame are not modelled (measured by the oracle only). Edges listed in c03_discharged.json are outside the certificate (today: the set-operator edge, bounded by theorem setop_nesting_bounded on a model whose tie to the code is the nesting oracle and the C04 set-operator stream).",
+    technique="Lean 4 graph theorem + kernel-checked rank certificate on the call graph regenerated from source (syn) + child-process nesting oracle",
+    trusted_base=["translator/callgraph.rs call resolution", "Model/SetOps.lean mirrors parse_remaining_set_exprs (hand-written)"],
+    assumptions=["every parser call chain is a path of the extracted static call graph"],
+)
+
 NOT_CLAIMED = {}
